@@ -49,9 +49,10 @@ def regexpp(regex: Any) -> str:
         "\t": r"\t",
         "\v": r"\v",
         "\f": r"\f",
-        "\b": r"\b",
+        # NOTE: in a regex `\b` is a word boundary and `\0` starts an octal escape
+        "\b": r"\x08",
         "\a": r"\a",
-        "\0": r"\0",
+        "\0": r"\x00",
         # NOTE: the other line boundaries of str.splitlines(): left raw they
         #   would break the line of generated source the literal is printed on
         "\x1c": r"\x1c",
